@@ -184,6 +184,47 @@ theorem good_insert_is_ingested (wl : Bool) (s : St) (p : Payload) (hs : s.dead 
   subst h1 h2 h3 h4 h5
   cases wl <;> simp_all [step, insertRaw, ICfg.fixed, Ins.apply, tableInsert]
 
+/-! ## Work controlled by numeric parameters: CROSSHIFT expands to at most cap + 1 fields -/
+
+/-- the cap the model uses is the constant of sql/sql.go -/
+theorem crosshift_cap_matches :
+    Facts.sqlConsts.lookup "maxCrosshiftFields" = some maxCrosshiftFields := by
+  decide
+
+/-- The statements of `addCrosshiftExpr` that decide how often its loop runs are, in the source,
+    in the order the theorem below is about: zero checks, `interval = |interval|`,
+    `limit = |cutoff|`, THEN the cap check, then the loop with its overflow guard. -/
+theorem crosshift_statement_order : Facts.crosshiftOps = Cross.canonicalNames ∧
+    Cross.canonicalNames.map Cross.Op.ofString = Cross.canonical.map some := by
+  decide
+
+/-- For EVERY cutoff and interval (any sign, any magnitude) one CROSSHIFT returns an error or
+    adds at most cap + 1 fields: no divergence, no int64 wrap-around, no division by zero.
+    Explicit precondition on faithfulness: the two values are durations `ParseDuration` can return,
+    i.e. in [-(2^63-1), 2^63-1], so that `-1 * x` is exact in int64 (it is exact in the model's
+    `Int` anyway, which is why the hypotheses are not used by the proof). -/
+theorem crosshift_fields_bounded (cutoff interval : Int)
+    (_hc : -Cross.maxDur ≤ cutoff ∧ cutoff ≤ Cross.maxDur) (_hi : -Cross.maxDur ≤ interval ∧ interval ≤ Cross.maxDur) :
+    Cross.crosshift maxCrosshiftFields Cross.canonical cutoff interval = .error ∨
+    ∃ n, Cross.crosshift maxCrosshiftFields Cross.canonical cutoff interval = .fields n ∧ (n : Int) ≤ maxCrosshiftFields + 1 :=
+  Cross.canonical_bounded maxCrosshiftFields cutoff interval
+
+/-- Without the loop's overflow guard the same bound needs |cutoff| + |interval| ≤ 2^63 - 1
+    (otherwise `i += interval` wraps, see the witness below). -/
+theorem crosshift_unguarded_needs_no_overflow (cutoff interval : Int)
+    (h : cutoff.natAbs + interval.natAbs ≤ Cross.maxDur.toNat) :
+    Cross.crosshift maxCrosshiftFields Cross.unguarded cutoff interval = .error ∨
+    ∃ n, Cross.crosshift maxCrosshiftFields Cross.unguarded cutoff interval = .fields n ∧ (n : Int) ≤ maxCrosshiftFields + 1 :=
+  Cross.unguarded_bounded maxCrosshiftFields cutoff interval h
+
+/-- The CROSSHIFT branch of the dispatch model (`crosshiftTail`, used by `fields_never_panic`)
+    errors exactly when this program errors. -/
+theorem crosshift_dispatch_agrees (c : Ctx) (v : VKind) (as : String) (l1 l2 : Lit)
+    (h1 : l1.durOk = true) (h2 : l2.durOk = true) :
+    ((crosshiftTail Cfg.fixed c v as l1 l2).val.isSome = true ↔
+      ∃ n, Cross.crosshift maxCrosshiftFields Cross.canonical l1.durNs l2.durNs = .fields n) :=
+  Cross.crosshiftTail_agrees c v as l1 l2 h1 h2
+
 /-! ## Non-vacuity: concrete inputs, and the findings as witnesses on the code as found -/
 
 private def lit0 : Lit := {}
@@ -229,5 +270,26 @@ example : insertRaw (ICfg.fixed true) garbage = Ack.rejected ∧
 /-- without the `recover` in `table.insert` an empty array kills the pipeline: the valid point
     after it never arrives (what `recover_boundaries_present` protects). -/
 example : run ⟨true, false, false⟩ St.init [good, emptyArr, good] = ⟨[1], 1, true⟩ := by decide
+
+/-- `CROSSHIFT(a, '10s', '-3s')`: 4 fields; `('1000s','1s')`: 1000; `('1001s','-1s')`: error. -/
+example : Cross.crosshift 1000 Cross.canonical 10000000000 (-3000000000) = .fields 4 ∧
+    Cross.crosshift 1000 Cross.canonical 1000000000000 1000000000 = .fields 1000 ∧
+    Cross.crosshift 1000 Cross.canonical 1001000000000 (-1000000000) = .error := by decide
+/-- the order matters: with the sign normalisation moved below the cap check,
+    `CROSSHIFT(a, '100h', '-1ns')` passes the check (negative quotient) and loops 3.6e14 times -/
+example : Cross.crosshift 1000 [.zeroCutoff, .zeroInterval, .limitIsCutoff, .absLimit, .cap, .absInterval, .loopGuarded]
+    360000000000000 (-1) = .fields 360000000000000 := by decide
+/-- … and without the normalisation the loop counter never reaches the limit -/
+example : Cross.crosshift 1000 [.zeroCutoff, .zeroInterval, .limitIsCutoff, .absLimit, .cap, .loopGuarded]
+    10000000000 (-1000000000) = .diverges := by decide
+/-- without the cap: 3.6e14 fields -/
+example : Cross.crosshift 1000 [.zeroCutoff, .zeroInterval, .absInterval, .limitIsCutoff, .absLimit, .loopGuarded]
+    360000000000000 1 = .fields 360000000000000 := by decide
+/-- without the overflow guard (the code before C16-fix-16): `CROSSHIFT(a, '2562047h', '1708031h')`
+    passes the cap (quotient 1) and `i += interval` wraps around int64 -/
+example : Cross.crosshift 1000 Cross.unguarded 9223369200000000000 6148911600000000000 = .wraps ∧
+    Cross.crosshift 1000 Cross.canonical 9223369200000000000 6148911600000000000 = .fields 2 := by decide
+/-- without the zero check the cap check divides by zero -/
+example : Cross.crosshift 1000 [.zeroCutoff, .absInterval, .limitIsCutoff, .absLimit, .cap, .loopGuarded] 5 0 = .divZero := by decide
 
 end Zeno.C16
